@@ -75,9 +75,19 @@ def model_check(name, cs, v, expect_refuted=None, workers=NW, timeout=900):
 def _aspect_class(a):
     a = re.sub(r":r\d+", "", a)
     a = re.sub(r":\d+$", "", a)
-    if a.startswith(("species-value", "parameter-value")):
+    if a.startswith(("species-value", "parameter-value", "lineage-vector")):
         a = a.split(":")[0]
     return a
+
+
+def _state_key(fam, aspect, tag, o):
+    """finding key of a projection mismatch: family + class of the deviating observable; the operation is part of
+    the key only for the initialized flag (it names the edit that kept it), the object only for copies"""
+    a = _aspect_class(aspect)
+    key = "state:%s:%s" % (fam, a)
+    if a == "vector:initialized":
+        key += ":after-" + tag.split(":")[0]
+    return key + ("" if o == 1 else ":copy")
 
 
 def replay_one(menu, rec, final=True, pair_only=False):
@@ -89,7 +99,15 @@ def replay_one(menu, rec, final=True, pair_only=False):
     W.pre(rec["pre"])
     expected = {1: rec["start"]}
     exp_itfs = []
-    stats = {"steps": 0, "sims": 0, "fresh_cmp": 0, "refusals": 0, "pairs": 0, "drift": 0, "final_modes": 0}
+    stats = {"steps": 0, "sims": 0, "fresh_cmp": 0, "refusals": 0, "pairs": 0, "drift": 0, "final_modes": 0, "obs": {}, "not_judged_sims": 0}
+    detached = set()      # interfaces whose parameter array is no longer the model's (observation, not judged)
+    stopped = False
+
+    def observe(key, what, i):
+        o = stats["obs"].setdefault(key, {"count": 0, "sample": None})
+        o["count"] += 1
+        if o["sample"] is None:
+            o["sample"] = {"what": what, "ops": [[x["op"], x["o"], x["n"], x["s"], x["t"], x["out"]] for x in rec["steps"][:i + 1]][-8:]}
 
     def check_all(tag, i):
         for o, m in enumerate(W.objs, start=1):
@@ -97,14 +115,21 @@ def replay_one(menu, rec, final=True, pair_only=False):
             stats["drift"] += len(drift)
             if bad:
                 a, d = bad[0]
-                who = "" if o == 1 else ":object%d" % min(o, 2)
-                return {"ok": False, "key": "state:%s:%s:after-%s%s" % (fam, _aspect_class(a), tag, who), "step": i,
+                return {"ok": False, "key": _state_key(fam, a, tag, o), "step": i,
                         "what": "object %d after %s: %s: %s (%d differences)" % (o, tag, a, d, len(bad))}
         for k, itf in enumerate(W.itfs):
             bad = compare_itf(project_itf(itf), exp_itfs[k])
+            par = [b for b in bad if b[0] == "interface-parameter-array"]
+            bad = [b for b in bad if b[0] != "interface-parameter-array"]
+            if par and k not in detached:
+                # a once-used interface that no longer shares the model's parameter array: design level, the
+                # property compares through freshly built interfaces
+                detached.add(k)
+                observe("interface:%s:interface-parameter-array:after-%s" % (fam, tag.split(":")[0]),
+                        "interface %d (%s) after %s: %s" % (k + 1, exp_itfs[k]["kind"], tag, par[0][1]), i)
             if bad:
                 a, d = bad[0]
-                return {"ok": False, "key": "interface:%s:%s:after-%s" % (fam, a, tag), "step": i,
+                return {"ok": False, "key": "interface:%s:%s" % (fam, a), "step": i,
                         "what": "interface %d (%s) after %s: %s: %s" % (k + 1, exp_itfs[k]["kind"], tag, a, d)}
         return None
 
@@ -115,6 +140,40 @@ def replay_one(menu, rec, final=True, pair_only=False):
         outcome, obs = W.do(st)
         stats["steps"] += 1
         tag = st["op"] + ((":" + st["t"]) if st["op"] in ("sim", "pairsim") else "")
+        if outcome != st["out"] and st["op"] == "sim" and st["n"] and st["out"] == "RuntimeError":
+            # simulating through an interface built BEFORE an edit: what the interface must do is not part of the
+            # claim (observation); the real run may have advanced the generator and rule-assigned parameters, so the
+            # rest of this history is not replayed
+            observe("outcome:%s:%s:interface:%s-expected-RuntimeError" % (fam, tag, outcome),
+                    "%s through an interface built before an edit gave %s, the design says RuntimeError" % (tag, outcome), i)
+            stopped = True
+            break
+        if outcome != st["out"] and st["op"] == "sim" and st["out"] == "ok" and (obs or {}).get("error"):
+            # the simulator itself raised (e.g. a Hill law at a state the integrator made slightly negative): the claim
+            # is that the outcome is a function of the definition, so the model built at once must raise the same
+            post = dict(expected)
+            for e in st["objs"]:
+                post[e["o"]] = e["p"]
+            ref = "ok"
+            judged = all(is_val(q["v"]) for q in post[st["o"]]["par"]) and not post[st["o"]]["assigned"]
+            try:
+                if not judged:
+                    raise RuntimeError("not judged")
+                fm = fresh_model(post[st["o"]], menu, fam)
+                if st["t"] != "det" and int(st["gen"]["seed"]):
+                    br.py_seed_random(int(st["gen"]["seed"]))
+                W.simulate(fm, None, st["t"], st["s"] == "safe")
+            except Exception as ex:  # noqa
+                ref = type(ex).__name__
+            if judged and ref != outcome:
+                return {"ok": False, "key": "history-differs-from-fresh:%s:%s:raises-%s" % (fam, st["t"], outcome), "step": i,
+                        "what": "%s after this history raised %s (%s), the freshly built model gave %s" % (tag, outcome, obs["error"], ref)}
+            observe("simulation-raises:%s:%s:%s" % (fam, st["t"], outcome), "both the history object and the freshly built model raise: " + obs["error"], i)
+            for e in st["objs"]:
+                expected[e["o"]] = e["p"]
+            exp_itfs = st["itfs"]
+            stopped = True          # rule-assigned parameters and the generator are in an unknown state now
+            break
         if outcome != st["out"]:
             via = "interface" if st["op"] == "sim" and st["n"] else "model"
             return {"ok": False, "key": "outcome:%s:%s:%s:%s-expected-%s" % (fam, tag, via, outcome, st["out"]), "step": i,
@@ -136,7 +195,9 @@ def replay_one(menu, rec, final=True, pair_only=False):
         if st["op"] == "sim" and outcome == "ok":
             stats["sims"] += 1
             sim = st["sim"]
-            if sim["cmp"] and (st["t"] == "det" or sim["fresh"]) and not pair_only:
+            if st["n"] and (st["n"] - 1) in detached:
+                stats["not_judged_sims"] += 1
+            elif sim["cmp"] and (st["t"] == "det" or sim["fresh"]) and not pair_only:
                 fm = fresh_model(expected[st["o"]], menu, fam)
                 if st["t"] != "det":
                     br.py_seed_random(int(st["gen"]["seed"]))
@@ -152,20 +213,33 @@ def replay_one(menu, rec, final=True, pair_only=False):
             e = expected[o]
             if not all(is_val(p["v"]) for p in e["par"]):
                 continue
-            modes = ["det", "sto", "vol", "delay"] + (["cell"] if fam == "lineage" else [])
+            modes = ["det", "sto", "vol", "delay", "dvol"] + (["cell"] if fam == "lineage" else [])
             fm = None if e["assigned"] else fresh_model(e, menu, fam)
             for mode in modes:
                 sd = 1000 + 17 * o
                 before = (m.get_species_dictionary(), m.get_parameter_dictionary())
                 runs = []
+                raised = None
                 for rep in range(2):
                     br.py_seed_random(sd)
                     try:
                         runs.append(W.simulate(m, None, mode, False))
                     except Exception as ex:  # noqa
-                        return {"ok": False, "key": "final:%s:%s:raises" % (fam, mode), "step": len(rec["steps"]),
-                                "what": "final %s simulation raised %r" % (mode, ex)}
+                        raised = ex
+                        break
                     m.py_initialize()
+                if raised is not None:
+                    ref = "ok"
+                    try:
+                        br.py_seed_random(sd)
+                        W.simulate(fm if fm is not None else fresh_model(e, menu, fam), None, mode, False)
+                    except Exception as ex:  # noqa
+                        ref = type(ex).__name__
+                    if ref != type(raised).__name__:
+                        return {"ok": False, "key": "history-differs-from-fresh:%s:%s:raises-%s" % (fam, mode, type(raised).__name__), "step": len(rec["steps"]),
+                                "what": "final %s simulation raised %r, the freshly built model gave %s" % (mode, raised, ref)}
+                    observe("simulation-raises:%s:%s:%s" % (fam, mode, type(raised).__name__), "both the history object and the freshly built model raise: %r" % (raised,), len(rec["steps"]) - 1)
+                    break
                 after = (m.get_species_dictionary(), m.get_parameter_dictionary())
                 for nm in before[0]:
                     if float(before[0][nm]) != float(after[0][nm]) and not (float(before[0][nm]) == -1.0 and float(after[0][nm]) == 0.0):
@@ -189,6 +263,7 @@ def replay_one(menu, rec, final=True, pair_only=False):
                         return {"ok": False, "key": "%s:%s:%s:final" % (kind, fam, mode), "step": len(rec["steps"]),
                                 "what": "%s simulation, same seed: %s vs %s: %s" % (mode, names[0], names[k], d)}
     stats["ok"] = True
+    stats["stopped"] = 1 if stopped else 0
     return stats
 
 
@@ -217,6 +292,9 @@ def gen_runs(tier, seed):
                                maxrules=2, maxitf=3, sp="SpAll", seeds="Seeds2", preset="PreSetAll"), 60 if q else 1500, 30),
         ("g_sim_full", consts(mode="sim", hlen=30, rules="RuleAll", rx="RxAll", xv="XV2", pv="PV2", modes="ModesPlain", maxrx=6,
                               maxrules=3, maxitf=3, sp="SpAll", seeds="Seeds2", presp="PreSpAll", preset="PreSetAll"), 60 if q else 1500, 36),
+        # an interface re-used after a deterministic run of a model with a rule (observation C)
+        ("g_det_itf", consts(mode="sim", hlen=10, rx="None", rules="None", sp="None", par="ParK1", pv="PV2", modes="ModesDet", maxitf=1,
+                             presp="PreSp123", prerx="PreRx1", prerules="PreRules1", preset="PreSetAll", preinit=True), 40 if q else 400, 14),
         # second object family: LineageModel with lineage rules / events among the edits
         ("g_lin_exh2", consts(fam="lineage", hlen=2, rx="RxLinSmall", rules="RuleSp", lin="LinSmall", sp="Sp12", modes="ModesLin",
                               maxlin=2, maxitf=1, presp="PreSpAll", prerx="PreRxLin0"), None, 0),
@@ -257,6 +335,11 @@ def judge(v, jobs, results, counters):
                 for key in ("steps", "sims", "fresh_cmp", "refusals", "pairs", "drift", "final_modes"):
                     counters[key] = counters.get(key, 0) + got.get(key, 0)
                 counters["ok"] = counters.get("ok", 0) + 1
+                counters["stopped"] = counters.get("stopped", 0) + got.get("stopped", 0)
+                counters["not_judged_sims"] = counters.get("not_judged_sims", 0) + got.get("not_judged_sims", 0)
+                for key, ob in got.get("obs", {}).items():
+                    tgt = counters.setdefault("obs", {}).setdefault(key, {"count": 0, "sample": ob["sample"]})
+                    tgt["count"] += ob["count"]
                 counters["ok_" + rec["fam"]] = counters.get("ok_" + rec["fam"], 0) + 1
             else:
                 small = dict(rec, steps=rec["steps"][:got.get("step", 0) + 1])
@@ -299,10 +382,13 @@ def run(tier):
            "steps_projected_and_compared": counters.get("steps", 0), "simulations_in_histories": counters.get("sims", 0),
            "simulations_compared_with_fresh_model": counters.get("fresh_cmp", 0), "refusals_replayed": counters.get("refusals", 0),
            "final_mode_checks": counters.get("final_modes", 0), "design_level_drift": counters.get("drift", 0),
+           "observations_not_judged": counters.get("obs", {}), "histories_cut_at_an_unjudged_step": counters.get("stopped", 0),
+           "simulations_through_rebound_interface_not_judged": counters.get("not_judged_sims", 0),
            "checker_cmd": "tlc LifecycleGen (INVARIANTS %s; PROPERTIES %s; VIEW View)" % (" ".join(INVS), " ".join(PROPS))}
     common.write_evidence(PROP, tier, cov, time.time() - t0, len(v.alarms) + sum(v.known_hit.values()),
                           assumptions=["simulation outputs are compared between the history object and a model built at once from the SPEC's definition record (the property is relational); rows bitwise for seeded stochastic modes, 1e-12 for the integrator",
                                        "an interface used after its model was re-initialised (accepted by check_interface, stale arrays) is outside the claim and not generated",
+                                       "what an interface built BEFORE an edit does when it is used (plain simulators refuse it, the lineage simulators do not check) and whether a once-used interface keeps sharing the parameter array (the deterministic simulator re-binds it when the model has rules) are observations, counted and not judged: the property compares through the model / freshly built interfaces",
                                        "values written by a rule into a parameter are unconstrained (Dirty); such models are only checked for 'nothing else changes'",
                                        "the order in which ONE call introduces several new parameters is design level (sympy's traversal) and counted as drift"])
     return rc
